@@ -425,3 +425,90 @@ def unit_applyfunc(timeout_ms=10000):
             good = isinstance(v, T) and v.head == "f" and len(v.args) == 3 and v.args[0] is x and v.args[1] is extra and isinstance(v.args[2], T) and v.args[2].head == "kw" and v.args[2].args[1] is kw
             eng.oblige(f"coefficient-at-{k_}-is-func(old, *args, **kwargs)", z3.BoolVal(bool(good)), detail=repr(v))
     return run_unit("number_ordered_form:applyfunc", harness, functions=[(MODULE, "NumberOrderedForm.applyfunc")], timeout_ms=timeout_ms)
+
+
+def unit_subs_doit_simplify(timeout_ms=10000):
+    """_eval_subs(old, new): refused (ValueError) when old or new is one of the form's operators; otherwise the form on the same operators and powers whose coefficients are
+    coeff.subs(old', new'), old' / new' being old / new with number operators replaced by the form's placeholders (so substituting a function of N acts on the stored coefficient);
+    doit(**hints) = as_expr().doit(**hints);  _eval_simplify(**kw) = _linearize_binary_operators().applyfunc(sympy.simplify, **kw)."""
+    def harness(eng):
+        class Ident(T):
+            """tokens compared by identity"""
+            def m_binop(s, e, op, other, reflected):
+                if isinstance(op, ast.Eq):
+                    return other is s
+                return super().m_binop(e, op, other, reflected)
+        OP_A, OP_B = Ident("op_a"), Ident("op_b")
+        OPS = STup([OP_A, OP_B])
+        N2P = T("number->placeholder")
+
+        class Coef(Ident):
+            def m_getattr(s, e, name):
+                if name == "subs":
+                    return Builtin("subs", lambda e_, o, n: Coef("subs", s, o, n))
+                if name == "xreplace":
+                    return Builtin("xreplace", lambda e_, m: Coef("xreplace", s, m))
+                return super().m_getattr(e, name)
+        c = [Coef("c0"), Coef("c1")]
+        pws = [STup([1, 0]), STup([0, -2])]
+        terms = STup([STup([p, x]) for p, x in zip(pws, c)])
+        built, lin, asx = [], [], []
+
+        class Self(Model):
+            def m_getattr(s, e, name):
+                if name == "args":
+                    return STup([OPS, terms])
+                if name == "operators":
+                    return OPS
+                if name == "_number_operator_to_placeholder":
+                    return N2P
+                if name == "as_expr":
+                    def as_expr(e_):
+                        x = T("as_expr(self)")
+                        x.m_getattr = lambda e2, nm: Builtin("doit", lambda e3, **h: T("doit", x, *[T("hint", T(k), v) for k, v in sorted(h.items())])) if nm == "doit" else None
+                        asx.append(x)
+                        return x
+                    return Builtin("as_expr", as_expr)
+                if name == "_linearize_binary_operators":
+                    def linz(e_):
+                        y = T("linearized(self)")
+                        y.m_getattr = lambda e2, nm: Builtin("applyfunc", lambda e3, f, *a, **k: T("applyfunc", y, f, *a, *[T("kw", T(n), v) for n, v in sorted(k.items())])) if nm == "applyfunc" else None
+                        lin.append(y)
+                        return y
+                    return Builtin("_linearize_binary_operators", linz)
+                raise Unsupported(f"self.{name}")
+
+        def cls_call(e, o, t, validate=True):
+            built.append((o, t, validate))
+            return T("new-form")
+        SIMPLIFY = T("sympy.simplify")
+        eng.globals.update({"type": Builtin("type", lambda e, x: Builtin("cls", cls_call)), "Tuple": Builtin("Tuple", lambda e, *a: STup(list(a))),
+                            "sympy": Namespace("sympy", {"simplify": SIMPLIFY})})
+        me = Self()
+        sub = frontend.find(MODULE, "NumberOrderedForm._eval_subs")
+        for old, new, label in ((OP_A, Coef("y"), "old-is-an-operator"), (Coef("x"), OP_B, "new-is-an-operator")):
+            try:
+                eng.call(Closure(sub, Env(None, {}), "_eval_subs"), [me, old, new], {})
+                raised = None
+            except PyRaise as pr:
+                raised = pr.exc.cls
+            eng.oblige(f"subs:{label}:ValueError", z3.BoolVal(raised == "ValueError"))
+        old, new = Coef("x"), Coef("y")
+        res = eng.call(Closure(sub, Env(None, {}), "_eval_subs"), [me, old, new], {})
+        ok = len(built) == 1 and built[0][0] is OPS and built[0][2] is False and isinstance(res, T) and res.head == "new-form"
+        eng.oblige("subs:one-form-on-the-same-operators-without-revalidation", z3.BoolVal(ok))
+        if ok:
+            tt = eng.as_seq(built[0][1]).items
+            good = len(tt) == 2
+            for k_, t_ in enumerate(tt if good else []):
+                p_, cf = eng.as_seq(t_).items
+                good = good and p_ is pws[k_] and isinstance(cf, Coef) and cf.head == "subs" and cf.args[0] is c[k_] \
+                    and all(isinstance(a, Coef) and a.head == "xreplace" and a.args[0] is b and a.args[1] is N2P for a, b in zip(cf.args[1:], (old, new)))
+            eng.oblige("subs:every-coefficient-is-coeff.subs(old', new')-with-number-operators-replaced-by-placeholders;-powers-unchanged", z3.BoolVal(bool(good)))
+        d = eng.call(Closure(frontend.find(MODULE, "NumberOrderedForm.doit"), Env(None, {}), "doit"), [me], {"deep": True})
+        eng.oblige("doit:as_expr().doit(**hints)", z3.BoolVal(len(asx) == 1 and isinstance(d, T) and d.head == "doit" and d.args[0] is asx[0] and len(d.args) == 2 and d.args[1].args[1] is True))
+        s_ = eng.call(Closure(frontend.find(MODULE, "NumberOrderedForm._eval_simplify"), Env(None, {}), "_eval_simplify"), [me], {"ratio": 2})
+        eng.oblige("simplify:_linearize_binary_operators().applyfunc(sympy.simplify, **kwargs)",
+                   z3.BoolVal(len(lin) == 1 and isinstance(s_, T) and s_.head == "applyfunc" and s_.args[0] is lin[0] and s_.args[1] is SIMPLIFY and len(s_.args) == 3 and s_.args[2].args[1] == 2))
+    return run_unit("number_ordered_form:_eval_subs/doit/_eval_simplify", harness,
+                    functions=[(MODULE, "NumberOrderedForm._eval_subs"), (MODULE, "NumberOrderedForm.doit"), (MODULE, "NumberOrderedForm._eval_simplify")], timeout_ms=timeout_ms)
